@@ -188,6 +188,13 @@ class Judge:
                 continue
             lib = K.lib_valid(schema, w)
             res.evaluations += 1
+            if (len(w) + acc + rej) % 9 == 0:
+                # comments, processing instructions and white space between the children are not part of the sequence
+                res.count('word:noisy_instance_compared')
+                if schema.is_valid(M.instance_element_noisy(w)) != lib:
+                    res.violation('comments-or-processing-instructions-between-children-change-the-verdict',
+                                  {'node': node, 'cfg': cfg, 'version': version, 'word': w},
+                                  K.witness_text(node, cfg, w, version) + f': plain instance valid={lib}, with comments / PIs valid={not lib}')
             if lib == ref:
                 if ref:
                     acc += 1
